@@ -56,8 +56,18 @@ def taper_probes():
                         k += 1
     return out
 
+def arc_probes():
+    """arcs whose count and span make (a2 - a1) / ((a2 - a1) / n) round above n: exactly n segments all the same"""
+    out = []
+    for k, (n, a1, a2) in enumerate(((61, 0, 360), (122, 0, 360), (7, 30, 150), (14, 30, 150), (28, 15, 75), (56, 30, 150), (47, 0, 60),
+                                     (59, 0, 270), (94, 0, 60), (61, -45, 45), (49, 0, 180), (98, 10, 190), (107, 0, 90))):
+        a = dict(type='arc', nseg=n, radius=1.11, ang1=float(a1), ang2=float(a2), r=0.001, tag=1)
+        out.append(dict(id=2 * 10 ** 6 + k, seed=0, spec=dict(f=10.0, wires=[a], media=None, family='arc-probe', tagmode='explicit',
+                        sources=[], loads=[], transforms=[], transforms_unsorted=[], scales=[])))
+    return out
+
 def run_stage(chk, rng, ncases, cases=None):
-    cases = cases or (taper_probes() + [dict(id=i, seed=rng.randrange(10 ** 9), spec=gen.gen_geometry(rng)) for i in range(ncases)])
+    cases = cases or (taper_probes() + arc_probes() + [dict(id=i, seed=rng.randrange(10 ** 9), spec=gen.gen_geometry(rng)) for i in range(ncases)])
     shards = [cases[k::NCPU] for k in range(NCPU) if cases[k::NCPU]]
     res = run_workers('geom', [dict(cases=s) for s in shards])
     results = []
